@@ -197,6 +197,21 @@ fn main() {
             util::install_logger();
             net::tls_sequence_child(&args[2], &args[3], &diameter::dictionary::DEFAULT_DICT_XML);
         }
+        "envdec" => {
+            // child of `envchild`: a fresh process whose environment was set before anything of the library ran: decode the
+            // frame under the built-in dictionary, display it (into a string and into sinks that run out of room)
+            std::panic::set_hook(Box::new(|_| {}));
+            let b = util::unhex(&args[2]).unwrap_or_default();
+            let d = std::sync::Arc::new(diameter::dictionary::Dictionary::new(&[&diameter::dictionary::DEFAULT_DICT_XML]));
+            let r = std::panic::catch_unwind(move || {
+                let st = interp::State::with_dict(d);
+                st.decode_line(&b)
+            });
+            match r {
+                Ok(a) => println!("{}", a.split(' ').next().unwrap_or("err")),
+                Err(_) => println!("panic"),
+            }
+        }
         "builtin-xml" => {
             print!("{}", *diameter::dictionary::DEFAULT_DICT_XML);
         }
